@@ -29,7 +29,8 @@ const (
 // op codes: s/p = ListenStream/ListenPacket on a, S/P on b, c = close oldest own handle,
 // x/y = ListenStream/ListenPacket on an address that cannot be bound (the call must fail, not hang),
 // k = a client connects to address a and is never accepted, d = a datagram is sent to address a
-// and never read (traffic that is pending when the handles close)
+// and never read (traffic that is pending when the handles close), r = close the most recently
+// closed stream handle once more, a = accept / read on the most recently closed handle (both must return)
 type program string
 
 const addrBusy = "127.0.0.1:9002"
@@ -38,6 +39,7 @@ var menu = []program{"sc", "pc", "ssc c", "sSc c", "spc c", "scsc", "pcpc", "xsc
 
 func runProgram(m service.ListenerManager, p program, errs *[]string) {
 	var handles, pending []io.Closer
+	var lastClosed io.Closer
 	for _, op := range p {
 		switch op {
 		case 's', 'S':
@@ -86,7 +88,25 @@ func runProgram(m service.ListenerManager, p program, errs *[]string) {
 		case 'c':
 			if len(handles) > 0 {
 				handles[0].Close()
+				lastClosed = handles[0]
 				handles = handles[1:]
+			}
+		case 'r':
+			// (stream handles only: a packet handle documents "must be called once, and only once")
+			if _, isStream := lastClosed.(service.StreamListener); isStream {
+				lastClosed.Close()
+			}
+		case 'a':
+			switch h := lastClosed.(type) {
+			case service.StreamListener:
+				if c, err := h.AcceptStream(); err == nil {
+					*errs = append(*errs, "AcceptStream on a closed handle succeeded")
+					c.Close()
+				}
+			case net.PacketConn:
+				if _, _, err := h.ReadFrom(make([]byte, 16)); err == nil {
+					*errs = append(*errs, "ReadFrom on a closed handle succeeded")
+				}
 			}
 		}
 	}
@@ -190,7 +210,9 @@ func scenarios(tier string) (two, three []*engine.Scenario) {
 		}
 	}
 	// traffic pending on the shared socket when the handles close
-	for _, ps := range [][]program{{"skc"}, {"pdc"}, {"skc", "sc"}, {"pdc", "pc"}, {"skc", "pdc"}, {"sksc c", "sc"}} {
+	for _, ps := range [][]program{{"skc"}, {"pdc"}, {"skc", "sc"}, {"pdc", "pc"}, {"skc", "pdc"}, {"sksc c", "sc"},
+		// handles closed again and used after their close
+		{"scrr"}, {"scra"}, {"pca"}, {"scrra", "sc"}, {"pca", "pc"}, {"sscrr c", "scr"}} {
 		two = append(two, scenario(ps))
 	}
 	for i := 0; i < len(small); i++ {
